@@ -13,7 +13,7 @@ theorem inv_taskEnd {s : St} {t p : Nat} {tp : Tp} (h : Inv s) (hbt : s.bases[t]
   obtain ⟨hpl, _⟩ := List.getElem?_eq_some_iff.1 htp
   refine { len1 := ?len1, len2 := ?len2, cnt := ?cnt, tokM := ?tokM, notSt := ?notSt, wIdle := ?wIdle, mIdle := ?mIdle,
            taskSt := ?taskSt, taskCnt := ?taskCnt, cbFwd := ?cbFwd, cbBack := ?cbBack, addFwd := ?addFwd,
-           addBack := ?addBack, allOut := ?allOut, leaving := ?leaving }
+           addBack := ?addBack, nFwd := ?nFwd, nBack := ?nBack, allOut := ?allOut, leaving := ?leaving }
   all_goals try (keep h)
   case len1 => simpa [tick] using h.len1
   case len2 => simpa [tick] using h.len2
@@ -78,6 +78,8 @@ theorem inv_taskEnd {s : St} {t p : Nat} {tp : Tp} (h : Inv s) (hbt : s.bases[t]
     rcases get_set_cases _ _ _ _ _ hx with ⟨_, hxe, _⟩ | ⟨_, hx'⟩
     · subst hxe; simp only [] at hxs; rw [hst] at hxs; rcases hxs with e | e | e <;> cases e
     · exact h.addBack q x hx' hxs
+  case nFwd => exact nf_set h.nFwd htp (by rw [hst]; simp)
+  case nBack => exact nb_set h.nBack (by simp [hst])
   case leaving =>
     intro hm
     have := (all_idle h (Or.inl hm) t htl).1
@@ -94,7 +96,7 @@ theorem inv_detect {s : St} {t p : Nat} {tp : Tp} (h : Inv s) (htp : s.tps[p]? =
   have hcnt0 : s.bases.count (Base.task p) = 0 := by have := h.taskCnt p tp htp; omega
   refine { len1 := ?len1, len2 := ?len2, cnt := ?cnt, tokM := ?tokM, notSt := ?notSt, wIdle := ?wIdle, mIdle := ?mIdle,
            taskSt := ?taskSt, taskCnt := ?taskCnt, cbFwd := ?cbFwd, cbBack := ?cbBack, addFwd := ?addFwd,
-           addBack := ?addBack, allOut := ?allOut, leaving := ?leaving }
+           addBack := ?addBack, nFwd := ?nFwd, nBack := ?nBack, allOut := ?allOut, leaving := ?leaving }
   all_goals try (keep h)
   case len1 => simpa [tick] using h.len1
   case len2 => simpa [tick] using h.len2
@@ -164,6 +166,8 @@ theorem inv_detect {s : St} {t p : Nat} {tp : Tp} (h : Inv s) (htp : s.tps[p]? =
     rcases get_set_cases _ _ _ _ _ hx with ⟨_, hxe, _⟩ | ⟨_, hx'⟩
     · subst hxe; simp only [] at hxs; rcases hxs with e | e | e <;> cases e
     · exact h.addBack q x hx' hxs
+  case nFwd => exact nf_set h.nFwd htp (by rw [hst]; simp)
+  case nBack => exact nb_set h.nBack (by simp)
   case leaving => intro hm; exact (canExec_not_out h hc (Or.inl hm)).elim
 
 theorem inv_dec {s : St} {t p : Nat} {tp : Tp} (h : Inv s) (hbt : s.bases[t]? = some (.cb p))
@@ -181,7 +185,7 @@ theorem inv_dec {s : St} {t p : Nat} {tp : Tp} (h : Inv s) (hbt : s.bases[t]? = 
     rw [hbt] at this; cases this
   refine { len1 := ?len1, len2 := ?len2, cnt := ?cnt, tokM := ?tokM, notSt := ?notSt, wIdle := ?wIdle, mIdle := ?mIdle,
            taskSt := ?taskSt, taskCnt := ?taskCnt, cbFwd := ?cbFwd, cbBack := ?cbBack, addFwd := ?addFwd,
-           addBack := ?addBack, allOut := ?allOut, leaving := ?leaving }
+           addBack := ?addBack, nFwd := ?nFwd, nBack := ?nBack, allOut := ?allOut, leaving := ?leaving }
   all_goals try (keep h)
   case len1 => simpa [tick] using h.len1
   case len2 => simpa [tick] using h.len2
@@ -248,6 +252,8 @@ theorem inv_dec {s : St} {t p : Nat} {tp : Tp} (h : Inv s) (hbt : s.bases[t]? = 
     rcases get_set_cases _ _ _ _ _ hx with ⟨_, hxe, _⟩ | ⟨_, hx'⟩
     · subst hxe; simp only [] at hxs; rcases hxs with e | e | e <;> cases e
     · exact h.addBack q x hx' hxs
+  case nFwd => exact nf_set h.nFwd htp (by rw [hst]; simp)
+  case nBack => exact nb_set h.nBack (by simp)
   case allOut => intro hm hw; exact (hbusy (Or.inr ⟨hm, hw⟩)).elim
   case leaving => intro hm; exact (hbusy (Or.inl hm)).elim
 
